@@ -14,6 +14,8 @@ theorem tableWrite_rows_other (σ : State) (c c' : Conn) (r : Req) (h : c' ≠ c
   | deactivate s => cases s <;> simp [tableWrite, unregister, unsubscribe, h]
   | ident => simp [tableWrite, resetConn, h]
   | disconnect => simp [tableWrite, resetConn, h]
+  | rw w m p e => simp [tableWrite]
+  | malformed a s => simp [tableWrite]
 
 theorem rows_other_stepH (cfg : Cfg) (σ σ' : State) (c c' : Conn) (h : c' ≠ c) (hs : stepH cfg σ c = some σ') :
     σ'.active c' = σ.active c' ∧ ∀ k, σ'.subs k c' = σ.subs k c' := by
@@ -63,6 +65,8 @@ theorem tableWrite_subs (σ : State) (c : Conn) (r : Req) (k : Name) (c' : Conn)
     split at h
     · cases h
     · exact Or.inl h
+  | rw w m p e => exact Or.inl h
+  | malformed a s => exact Or.inl h
 
 /-- the keys in use are keys of module / parameter scopes -/
 def KeysInv (σ : State) : Prop := ∀ k c, σ.subs k c = true → ∃ s, s ≠ Scope.all ∧ s.key = k
@@ -85,7 +89,7 @@ theorem keysInv_reach (cfg : Cfg) (hs us cache) (σ : State) (h : Reach cfg (ini
     unfold step at hstep
     split at hstep
     · exact keysInv_stepH cfg _ _ _ ih hstep
-    · obtain ⟨_, _, _, _, _, f6, _⟩ := stepU_frame cfg _ _ _ a.arg hstep
+    · obtain ⟨_, _, _, _, _, f6, _⟩ := stepU_frame cfg _ _ _ a.arg (stepUG_some hstep)
       intro k c h; rw [f6] at h; exact ih k c h
 
 theorem tablesOwn_reach (cfg : Cfg) (hs us cache) (σ : State) (h : Reach cfg (init hs us cache) σ) : TablesOwn σ := by
@@ -103,7 +107,7 @@ theorem tablesFrame (cfg : Cfg) (σ σ' : State) (a : Act) : TablesFrame cfg σ 
   · rename_i c hc
     exact rows_other_stepH cfg σ σ' c c' (by intro h; subst h; exact hne hc) hs
   · rename_i k _
-    obtain ⟨_, _, _, _, f5, f6, _⟩ := stepU_frame cfg σ σ' k a.arg hs
+    obtain ⟨_, _, _, _, f5, f6, _⟩ := stepU_frame cfg σ σ' k a.arg (stepUG_some hs)
     exact ⟨by rw [f5], fun k' => by rw [f6]⟩
 
 end Frappy.Activate
